@@ -92,6 +92,8 @@ pub fn configs_c03(tier: Tier) -> Vec<Box<dyn Config>> {
         let l = format!("{}-release", h.label());
         v.push(Box::new(BfsConfig::new(l, h, Limits { max_wall_s: 60.0, ..Default::default() })));
     }
+    // zero-sized elements with a construction / clone / drop ledger
+    v.push(Box::new(ZstTables { tier }));
     v
 }
 
@@ -109,18 +111,44 @@ pub struct ZstTables {
     pub tier: Tier,
 }
 
+thread_local! {
+    static ZLIVE: std::cell::Cell<i64> = const { std::cell::Cell::new(0) };
+}
+/// zero-sized element with a ledger: constructions and clones minus drops
+pub struct ZTok(());
+impl ZTok {
+    fn new() -> Self {
+        ZLIVE.with(|c| c.set(c.get() + 1));
+        ZTok(())
+    }
+}
+impl Clone for ZTok {
+    fn clone(&self) -> Self {
+        ZTok::new()
+    }
+}
+impl Drop for ZTok {
+    fn drop(&mut self) {
+        ZLIVE.with(|c| c.set(c.get() - 1));
+    }
+}
+fn zlive() -> i64 {
+    ZLIVE.with(|c| c.get())
+}
+
 fn zst_case(n: usize, mask: u32, mode: u8) -> Result<(), String> {
-    type T = hashbrown::HashTable<(), CheckAlloc>;
+    type T = hashbrown::HashTable<ZTok, CheckAlloc>;
     env::reset();
+    ZLIVE.with(|c| c.set(0));
     // a zero-sized element carries no information, so the re-hashing closure can only be a
     // constant: all entries share one hash (they spread along its probe sequence)
     const H0: u64 = 5 | (0x15 << 57);
     let hashes: Vec<u64> = vec![H0; n];
     let mut t = T::default();
     for &h in &hashes {
-        t.insert_unique(h, (), |_| H0);
+        t.insert_unique(h, ZTok::new(), |_| H0);
     }
-    let what = || format!("HashTable<()> with {n} entries, removal pattern {mask:#b}, mode {mode}");
+    let what = || format!("HashTable<zero-sized> with {n} entries, removal pattern {mask:#b}, mode {mode}");
     let chk = |t: &T, want: usize| -> Result<(), String> {
         let d = t.verif_dump();
         inv::check_structure_public(&d).map_err(|m| format!("{}: {m}", what()))?;
@@ -130,6 +158,27 @@ fn zst_case(n: usize, mask: u32, mode: u8) -> Result<(), String> {
         Ok(())
     };
     chk(&t, n)?;
+    // clone / clone_from create exactly one new element per stored element (ledger of a zero-sized type)
+    {
+        let c = t.clone();
+        if zlive() != 2 * n as i64 {
+            return Err(format!("{}: after clone() {} zero-sized elements are live, expected {}", what(), zlive(), 2 * n));
+        }
+        chk(&c, n)?;
+        let mut c2 = T::default();
+        for _ in 0..3 {
+            c2.insert_unique(H0, ZTok::new(), |_| H0);
+        }
+        c2.clone_from(&t);
+        if zlive() != 3 * n as i64 {
+            return Err(format!("{}: after clone() and clone_from() {} zero-sized elements are live, expected {}", what(), zlive(), 3 * n));
+        }
+        chk(&c2, n)?;
+        drop((c, c2));
+        if zlive() != n as i64 {
+            return Err(format!("{}: after dropping both clones {} zero-sized elements are live, expected {n}", what(), zlive()));
+        }
+    }
     let mut visit = 0u32;
     let mut removed = 0usize;
     match mode {
@@ -180,19 +229,25 @@ fn zst_case(n: usize, mask: u32, mode: u8) -> Result<(), String> {
         }
     }
     // still usable
-    t.insert_unique(H0, (), |_| H0);
+    if zlive() != (n - removed) as i64 {
+        return Err(format!("{}: {} zero-sized elements are live but the table holds {}", what(), zlive(), n - removed));
+    }
+    t.insert_unique(H0, ZTok::new(), |_| H0);
     chk(&t, n - removed + 1)?;
     let k = t.drain().count();
     if k != n - removed + 1 {
         return Err(format!("{}: drain yields {k}", what()));
     }
     drop(t);
+    if zlive() != 0 {
+        return Err(format!("{}: after dropping the table the ledger of zero-sized elements is at {}", what(), zlive()));
+    }
     crate::mapsut::end_of_run_checks(&Baseline { live_elems: 0, live_blocks: 0, live_bytes: 0, block_idx: 0, reg_idx: 0 })
 }
 
 impl Config for ZstTables {
     fn label(&self) -> String {
-        "HashTable<()>-many-entries".into()
+        "HashTable<zero-sized>-many-entries".into()
     }
     fn run(&self) -> ConfigReport {
         crate::crumbs::set_config(&self.label());
